@@ -70,7 +70,7 @@ class Module:
         except SyntaxError as exc:
             raise AnalysisError("cannot parse %s: %s" % (relpath, exc))
         from .normalize import normalize_module
-        self.normalized = normalize_module(self.tree)
+        self.normalized = normalize_module(self.tree, name)
         self.aliases = {}  # local name -> dotted target
         self.functions = {}  # qualname -> FuncInfo
         self.classes = {}  # name -> ClassDef
